@@ -6,7 +6,8 @@ import Glom.Model.C19
   table of glom's command.  The table is NOT written here: it is the value the extractor reads
   off the object `glom.cli.get_command()` builds (flag map with keys, `parse_as`, `multi`;
   positional-argument limits; flagfile and help flags) — `Table`, instantiated in
-  Model/C19Env.lean.
+  Model/C19Env.lean.  The parser sees the outside world only through `PEnv` (`int()`, the
+  content of a flagfile split by `shlex`, `abspath`): it never looks at a spec or a target.
 
   Mirrors:
     * `normalize_flag_name` (leading dashes dropped — all of them —, lower-cased when there were
